@@ -632,4 +632,99 @@ theorem mdGet_mdSubInt {a b : List (Nat × Int)} (ha : MDSorted a) (hb : MDSorte
     · simp [mdGet, hkj]
 
 
+/-! ### `usize` subtraction: panics exactly on underflow -/
+
+theorem mdUpdSubNat_eq {l : List (Nat × Nat)} (h : MDSorted l) (i d : Nat) :
+    mdUpdSubNat l i d =
+      if d ≤ mdGet l i then Res.ok (mdUpd (fun e d => e - d) l i d) else Res.panic := by
+  induction l with
+  | nil => simp [mdUpdSubNat, mdGet, mdUpd]
+  | cons p t ih =>
+    obtain ⟨k, e⟩ := p
+    rw [mdSorted_cons] at h
+    unfold mdUpdSubNat mdUpd
+    split
+    · rename_i hik
+      have hne : ¬ k = i := fun e => by subst e; exact lt_irrefl _ hik
+      have hnot : i ∉ mdKeys t := fun hm => lt_irrefl _ (lt_trans hik (h.1 i hm))
+      simp [mdGet, hne, mdGet_of_not_mem hnot]
+    · split
+      · rename_i _ hik; subst hik; simp [mdGet]
+      · rename_i h1 h2
+        have hne : ¬ k = i := fun e => h2 e.symm
+        rw [ih h.2]
+        simp only [mdGet, hne, if_false]
+        split <;> rfl
+
+def subStep (acc : Res (List (Nat × Nat))) (p : Nat × Nat) : Res (List (Nat × Nat)) :=
+  Res.bind acc (fun l => mdUpdSubNat l p.1 p.2)
+
+theorem foldl_subStep_panic (b : List (Nat × Nat)) : b.foldl subStep Res.panic = Res.panic := by
+  induction b with
+  | nil => rfl
+  | cons p t ih => simpa [List.foldl_cons, subStep, Res.bind] using ih
+
+theorem foldl_subStep_ok {a : List (Nat × Nat)} (ha : MDSorted a) {b : List (Nat × Nat)}
+    (hb : (mdKeys b).Nodup) (hle : ∀ j, mdGet b j ≤ mdGet a j) :
+    ∃ c, b.foldl subStep (Res.ok a) = Res.ok c ∧ MDSorted c ∧ ∀ j, mdGet c j = mdGet a j - mdGet b j := by
+  induction b generalizing a with
+  | nil => exact ⟨a, rfl, ha, fun j => by simp [mdGet]⟩
+  | cons p t ih =>
+    obtain ⟨k, e⟩ := p
+    simp only [mdKeys, List.map_cons, List.nodup_cons] at hb
+    have hk : e ≤ mdGet a k := by have := hle k; simpa [mdGet] using this
+    simp only [List.foldl_cons, subStep, Res.bind]
+    rw [mdUpdSubNat_eq ha, if_pos hk]
+    have ha' := mdSorted_mdUpd (fun e d => e - d) ha k e
+    have hget := mdGet_mdUpd (fun e d => e - d) ha k e
+    have hle' : ∀ j, mdGet t j ≤ mdGet (mdUpd (fun e d => e - d) a k e) j := by
+      intro j
+      rw [hget]
+      by_cases hkj : k = j
+      · subst hkj; simp [mdGet_of_not_mem (l := t) hb.1]
+      · have := hle j; simp only [mdGet, hkj, if_false] at this; simpa [hkj] using this
+    obtain ⟨c, hc, hs, hg⟩ := ih ha' hb.2 hle'
+    refine ⟨c, hc, hs, fun j => ?_⟩
+    rw [hg j, hget]
+    by_cases hkj : k = j
+    · subst hkj; simp [mdGet, mdGet_of_not_mem (l := t) hb.1]
+    · simp [mdGet, hkj]
+
+theorem foldl_subStep_underflow {a : List (Nat × Nat)} (ha : MDSorted a) {b : List (Nat × Nat)}
+    (hb : (mdKeys b).Nodup) (hlt : ∃ j, mdGet a j < mdGet b j) :
+    b.foldl subStep (Res.ok a) = Res.panic := by
+  induction b generalizing a with
+  | nil => obtain ⟨j, hj⟩ := hlt; simp [mdGet] at hj
+  | cons p t ih =>
+    obtain ⟨k, e⟩ := p
+    simp only [mdKeys, List.map_cons, List.nodup_cons] at hb
+    simp only [List.foldl_cons, subStep, Res.bind]
+    rw [mdUpdSubNat_eq ha]
+    by_cases hk : e ≤ mdGet a k
+    · rw [if_pos hk]
+      apply ih (mdSorted_mdUpd _ ha k e) hb.2
+      obtain ⟨j, hj⟩ := hlt
+      have hkj : ¬ k = j := by
+        intro e'; subst e'; simp [mdGet] at hj; omega
+      refine ⟨j, ?_⟩
+      rw [mdGet_mdUpd _ ha]
+      simpa [mdGet, hkj] using hj
+    · rw [if_neg hk]; exact foldl_subStep_panic t
+
+theorem mdSubNat_eq (a b : List (Nat × Nat)) :
+    mdSubNat a b = Res.bind (b.foldl subStep (Res.ok a)) (fun l => Res.ok (mdReduce l)) := rfl
+
+/-- `MultiDeg<usize>` subtraction succeeds iff no exponent underflows; the result satisfies the invariant and
+subtracts exponents -/
+theorem mdSubNat_ok {a b : List (Nat × Nat)} (ha : MDSorted a) (hb : MDSorted b)
+    (hle : ∀ j, mdGet b j ≤ mdGet a j) :
+    ∃ c, mdSubNat a b = Res.ok c ∧ MDWF c ∧ ∀ j, mdGet c j = mdGet a j - mdGet b j := by
+  obtain ⟨c, hc, hs, hg⟩ := foldl_subStep_ok ha (mdSorted_nodup hb) hle
+  refine ⟨mdReduce c, by rw [mdSubNat_eq, hc]; rfl, mdWF_reduce hs, fun j => ?_⟩
+  rw [mdGet_filter (mdSorted_nodup hs), hg]
+
+theorem mdSubNat_panic {a b : List (Nat × Nat)} (ha : MDSorted a) (hb : MDSorted b)
+    (hlt : ∃ j, mdGet a j < mdGet b j) : mdSubNat a b = Res.panic := by
+  rw [mdSubNat_eq, foldl_subStep_underflow ha (mdSorted_nodup hb) hlt]; rfl
+
 end Yuiv.C16
